@@ -35,7 +35,29 @@ func (w *World) contractFor(fn *ssa.Function) (*Contract, string) {
 			return ct, short
 		}
 	}
+	if ct := w.globStub(name); ct != nil {
+		return ct, name
+	}
 	return nil, ""
+}
+
+// globStub matches stub keys containing a single '*' wildcard.
+func (w *World) globStub(name string) *Contract {
+	for k, ct := range w.Stubs {
+		if !strings.Contains(k, ".*)") {
+			continue
+		}
+		// wildcard stands for a type name:  (*pkg.*).Method
+		star := strings.LastIndex(k, "*")
+		pre, suf := k[:star], k[star+1:]
+		if strings.HasPrefix(name, pre) && strings.HasSuffix(name, suf) && len(name) >= len(pre)+len(suf) {
+			mid := name[len(pre) : len(name)-len(suf)]
+			if !strings.ContainsAny(mid, "./()") {
+				return ct
+			}
+		}
+	}
+	return nil
 }
 
 func (w *World) contractForObj(fn *types.Func) (*Contract, string) {
@@ -100,6 +122,22 @@ func (ex *Exec) callCommon(cc *ssa.CallCommon, in *ssa.Call, p token.Pos) *Val {
 		}
 	} else if mc, ok := cc.Value.(*ssa.MakeClosure); ok {
 		binds = ex.val(mc).Bind
+	}
+	if callee == nil {
+		// a package-level function variable with an assumed contract (e.g. timeNow = time.Now)
+		if ld, ok := cc.Value.(*ssa.UnOp); ok && ld.Op == token.MUL {
+			if g, ok := ld.X.(*ssa.Global); ok {
+				key := "var:" + strings.TrimPrefix(g.String(), modulePath+"/")
+				if ct, ok := ex.w.Stubs[key]; ok {
+					sig := cc.Signature()
+					var names []string
+					for i := 0; i < sig.Params().Len(); i++ {
+						names = append(names, sig.Params().At(i).Name())
+					}
+					return ex.applyContract(ct, key, sig, names, ex.argVals(cc), p, nil)
+				}
+			}
+		}
 	}
 	if callee == nil {
 		// unknown function value
@@ -274,8 +312,13 @@ func (ex *Exec) applyContract(ct *Contract, key string, sig *types.Signature, na
 			post.vars[n] = *rv
 		}
 	}
+	// the callee's postconditions are only established under its domain hypotheses
+	var dom []Term
+	for _, d := range ct.Domain {
+		dom = append(dom, ex.evalBool(env, d))
+	}
 	for _, en := range ct.Ensures {
-		c.assume(Implies(ex.rch, ex.evalBool(post, en)))
+		c.assume(Implies(And(append([]Term{ex.rch}, dom...)...), ex.evalBool(post, en)))
 	}
 	return rv
 }
